@@ -6,16 +6,29 @@ import os
 import re
 
 OUT = '/verif/seeded/results.json'
+# changes the check of their property missed when they arrived (the check was
+# strengthened because of them).  Runs made before the build cache was made
+# per-tree (mbv/build.py) did not execute pure-Python changes at all; those
+# "misses" were artefacts and are not listed here.
+STRENGTHENED = {
+    'C10-m1', 'C06-m1', 'C03-m2', 'C03-m3', 'C07-m1', 'C07-m3', 'C17-m1',
+    'C17-m3', 'C16-m3', 'C11-m1', 'C11-m3', 'C19-m2', 'C19-m3', 'C13-m1',
+    'C04-m1', 'C04-m3', 'C20-m1', 'C20-m3', 'C14-m1', 'C14-m2', 'C12-m2'}
 res = json.load(open(OUT)) if os.path.exists(OUT) else {}
-for f in glob.glob('/tmp/seedrun-*.out'):
+for f in sorted(glob.glob('/tmp/seedrun-*.out'), key=os.path.getmtime):
     for line in open(f):
         m = re.match(r'CHECK (C\d+) (m\d) rc=(\d+) (\d+) violations; (.*)', line)
         if m:
             prop, mk, rc, nv, tail = m.groups()
             name = '%s-%s' % (prop, mk)
             r = res.setdefault(name, {})
+            h = r.setdefault('history', [])
+            ent = [rc == '1', tail.strip()]
+            if ent not in h:
+                h.append(ent)
             r.update(check=prop, rc=int(rc), detected=(rc == '1'),
-                     summary=tail.strip())
+                     summary=tail.strip(),
+                     first_run_detected=name not in STRENGTHENED)
 for name, r in res.items():
     meta = os.path.join('/verif/seeded', name, 'meta.json')
     if os.path.exists(meta):
@@ -33,12 +46,17 @@ with open('/verif/seeded/RESULTS.md', 'w') as fp:
              'tests pass with it, its demo fails with and passes without '
              'the change. "caught" = the quick check of that property exits '
              '1 with a VIOLATION on the patched tree (and 0 on the unchanged '
-             'tree).\n\n| change | confirmed | caught by | outcome | note |\n'
-             '|---|---|---|---|---|\n')
+             'tree). "first run" = outcome with the check as it was when the '
+             'change arrived; a "no" there followed by a check name means '
+             'the check was strengthened because of this change.\n\n'
+             '| change | confirmed | first run | caught by (now) | outcome | note |\n'
+             '|---|---|---|---|---|---|\n')
     for name in sorted(res):
         r = res[name]
-        fp.write('| %s | %s | %s | %s | %s |\n' % (
-            name, r.get('confirmed'), r.get('check') if r.get('detected')
+        fr = name not in STRENGTHENED
+        fp.write('| %s | %s | %s | %s | %s | %s |\n' % (
+            name, r.get('confirmed'), 'caught' if fr else 'no',
+            r.get('check') if r.get('detected')
             else 'NOT caught', r.get('summary', '')[:80],
             r.get('note', r.get('what', ''))[:160].replace('|', '/')))
 print(len(res), 'entries;', sum(1 for r in res.values() if r.get('detected')),
